@@ -33,7 +33,7 @@ def run(ctx):
         ctx.part("replay_" + name, types=s.get("cases"), executions=s.get("evaluations"), skipped=s.get("skipped_types"))
     # omitempty takes effect exactly when the member would be empty - also when the member was already
     # written to a streaming encoder and has to be retracted around a flush boundary
-    sw = ctx.tv("arshal", "Trace_Arshal", {"seed": ctx.seed, "mode": "c07sweep", "step": 6 if ctx.quick else 2, "maxpad": 5200, "prop": "C15"}, consts={"MaxD": 10000})
+    sw = ctx.tv("arshal", "Trace_Arshal", {"seed": ctx.seed, "mode": "c07sweep", "step": 11 if ctx.quick else 2, "maxpad": 5200, "prop": "C15"}, consts={"MaxD": 10000})
     total += int(sw.get("cases", 0))
     ctx.sample({"type": "struct{ E1 struct{X int `json:\"A\"`} `json:\",embed\"`; E2 struct{A int} `json:\",embed\"` }",
                 "rule": "both at depth 2, only X explicitly named A: X wins", "marshal": '{"A":<X>}'})
